@@ -217,18 +217,20 @@ def run(ctx):
         tasks = [y for st_ in rb.body for y in ast.walk(st_) if isinstance(y, ast.Call) and norm(y.func) == "asyncio.create_task" and "_run_event_loop" in norm(y)]
         c.ob("R9", bool(tasks), ast_, "resume-creates-consumer", "resuming attaches a consumer task" if tasks else
              "the resume branch no longer creates the run-loop task: a restored interpreter queues every event and processes none", rb)
-        loops = [y for st_ in rb.body for y in ast.walk(st_) if isinstance(y, ast.For) and "_actors" in norm(y.iter)]
+        from sa.util import with_helpers
+        hn = with_helpers(p, ast_, rb.body)
+        loops = [(hf, y) for hf, y in hn if isinstance(y, ast.For) and "_actors" in norm(y.iter)]
         okc = False
-        for l in loops:
+        for hf, l in loops:
             lv = norm(l.target)
             for y in [z for st_ in l.body for z in ast.walk(st_) if isinstance(z, ast.Call) and isinstance(z.func, ast.Attribute) and z.func.attr == "start" and norm(z.func.value) == lv]:
-                par = __import__("sa.util", fromlist=["parents"]).parents(ast_).get(id(y))
+                par = __import__("sa.util", fromlist=["parents"]).parents(hf).get(id(y))
                 if isinstance(par, ast.Await):
                     okc = True
                 elif isinstance(par, ast.Assign) and isinstance(par.targets[0], ast.Name):
                     var = par.targets[0].id
                     for aw in [z for st_ in l.body for z in ast.walk(st_) if isinstance(z, ast.Await) and norm(z.value) == var]:
-                        mine = [canon_atom(a, pol) for a, pol in guards_at(ast_, aw) if var in norm(a)]
+                        mine = [canon_atom(a, pol) for a, pol in guards_at(hf, aw) if var in norm(a)]
                         if mine and all(t == ("truthy", f"inspect.isawaitable({var})", "", True) for t in mine):
                             okc = True
         c.ob("R9", okc, ast_, "resume-starts-children", "resuming starts (and waits for) every restored child actor" if okc else
